@@ -109,7 +109,7 @@ type Controller struct {
 
 // New installs a controller into rsec16 and returns it.
 func New() *Controller {
-	c := &Controller{Grace: 5 * time.Second, TraceKeep: 4096}
+	c := &Controller{Grace: 30 * time.Second, TraceKeep: 4096}
 	c.Stats.RegionShapes = map[string]int{}
 	c.Stats.ScheduleHash = 1469598103934665603
 	rsec16.SetVerifHooks(&rsec16.VerifHooks{
